@@ -50,7 +50,7 @@ impl ProgProperty for C02 {
         }
     }
     fn mix(&self, _tier: Tier) -> Mix {
-        Mix { raw: 15, strukt: 45, div: 0, wide: 12, big: 3, roam: 20, deep: 5, commented: 4 }
+        Mix { raw: 15, strukt: 45, div: 0, wide: 12, big: 3, roam: 20, deep: 5, commented: 4, hibits: 5 }
     }
     fn make_cfgs(&self, _sel: &Sel, _p: &str, _i: &[u8], _b: u32, _r: &RefRun) -> Vec<RunCfg> {
         (0u32..4)
